@@ -684,11 +684,17 @@ def draw_logical_file(draw, profile, lf_index=0, rows_fixed=None):
     # explicit origin references on some objects (only to origins that exist before them)
     if profile.explicit_origin_refs:
         seen_origins = []
+        later_explicit = [i for i, op in enumerate(g.ops) if op['t'] == 'origin' and isinstance(op.get('oref'), int)]
         for i, op in enumerate(g.ops):
             if op['t'] == 'origin':
                 seen_origins.append(i)
             elif op['t'] != 'nfdata' and seen_origins and draw(st.integers(0, 4)) == 0:
                 op['oref'] = {'$origin': draw(st.sampled_from(seen_origins))}
+            elif op['t'] != 'nfdata' and draw(st.integers(0, 5)) == 0:
+                # the number of an origin that will only be added later (allowed: the reference is a plain integer)
+                later = [k for k in later_explicit if k > i]
+                if later:
+                    op['oref'] = {'$origin_later': draw(st.sampled_from(later))}
     hdr = {}
     if profile.hdr_variants:
         hdr = {'id': draw(st.text(alphabet=UPPER if profile.upper_names else PRINTABLE,
@@ -731,6 +737,8 @@ def shuffle_ops(draw, lf):
                     d.add(v['$ref'])
                 elif '$origin' in v:
                     d.add(v['$origin'])
+                elif '$origin_later' in v:
+                    pass      # a plain number: no ordering constraint
                 else:
                     for x in v.values():
                         walk(x)
@@ -754,6 +762,8 @@ def shuffle_ops(draw, lf):
                 return {'$ref': new_index[v['$ref']]}
             if '$origin' in v:
                 return {'$origin': new_index[v['$origin']]}
+            if '$origin_later' in v:
+                return {'$origin_later': new_index[v['$origin_later']]}
             return {k: remap(x) for k, x in v.items()}
         if isinstance(v, list):
             return [remap(x) for x in v]
